@@ -29,6 +29,7 @@ from typing import Any, Dict, List, Optional, Sequence, Set, Tuple
 
 from sa import astq
 from sa import symexec as SX
+from checks import c03v
 from sa.consteval import Folder
 from sa.defuse import Inliner
 from sa.model import AnalysisError, FuncInfo, norm
@@ -116,6 +117,8 @@ class Sites:
     maps: Dict[str, Any] = field(default_factory=dict)  # dict name -> kind | [kind, ...]
     typing: List[Tuple[SX.Path, str]] = field(default_factory=list)  # (path, stored type constant)
     nonnull: Set[str] = field(default_factory=set)
+    byvalue: Optional[Dict[str, Any]] = None  # registration read by value (checks/c03v.py) when the symbolic reading is impossible
+    records: Dict[str, List[str]] = field(default_factory=dict)  # record constructor -> field names
 
     def rewrite(self, e: ast.expr) -> ast.expr:
         return _Roles(self).visit(e)
@@ -137,6 +140,8 @@ class _Roles(ast.NodeTransformer):
             side = self._side(n.slice)
             if side is not None:
                 k = self.s.maps[n.value.id]
+                if isinstance(k, tuple) and k[0] == "record":
+                    return ast.Call(func=ast.Name(id=k[1], ctx=ast.Load()), args=[ast.Name(id=f"{x}_{side}", ctx=ast.Load()) if isinstance(x, str) else ast.Constant(value=None) for x in k[3]], keywords=[])
                 if isinstance(k, list):
                     return ast.Tuple(elts=[ast.Name(id=f"{x}_{side}", ctx=ast.Load()) if isinstance(x, str) else ast.Constant(value=None) for x in k], ctx=ast.Load())
                 return ast.Name(id=f"{k}_{side}", ctx=ast.Load())
@@ -144,7 +149,19 @@ class _Roles(ast.NodeTransformer):
         if side is not None:
             return ast.Name(id=f"point_{side}", ctx=ast.Load())
         self.generic_visit(n)
+        # position of a record: _Point(a, k, r)[1] -> k
+        if isinstance(n.value, ast.Call) and isinstance(n.value.func, ast.Name) and n.value.func.id in self.s.records and isinstance(n.slice, ast.Constant) and isinstance(n.slice.value, int) and 0 <= n.slice.value < len(n.value.args):
+            return n.value.args[n.slice.value]
         return SX._simplify(n)
+
+    def visit_Attribute(self, n: ast.Attribute):
+        self.generic_visit(n)
+        # field of a record: _Point(a, k, r).kind -> k
+        if isinstance(n.value, ast.Call) and isinstance(n.value.func, ast.Name) and n.value.func.id in self.s.records:
+            fields = self.s.records[n.value.func.id]
+            if n.attr in fields and fields.index(n.attr) < len(n.value.args):
+                return n.value.args[fields.index(n.attr)]
+        return n
 
 
 def _kd_points(fi: FuncInfo, loop: ast.For) -> str:
@@ -157,7 +174,57 @@ def _kd_points(fi: FuncInfo, loop: ast.For) -> str:
     return defs[0].args[0].id
 
 
-def build_sites(fi: FuncInfo, loop: ast.For) -> Sites:
+def build_sites(fi: FuncInfo, loop: ast.For, repo=None) -> Sites:
+    """Symbolic reading of the registration; by value (checks/c03v.py) when that is impossible and a repository is given."""
+    try:
+        return _build_sites_symbolic(fi, loop)
+    except (NotReadable, SX.TooManyPaths) as ex:
+        if repo is None:
+            raise
+        why = str(ex)
+    try:
+        return _build_sites_by_value(repo, fi, loop, why)
+    except c03v.NotEvaluable as ex2:
+        raise NotReadable(f"{why}; by value: {ex2}")
+
+
+def _build_sites_by_value(repo, fi: FuncInfo, loop: ast.For, why: str) -> Sites:
+    if not (isinstance(loop.target, ast.Tuple) and len(loop.target.elts) == 2 and all(isinstance(e, ast.Name) for e in loop.target.elts)):
+        raise NotReadable("the pair loop does not unpack (i, j)")
+    idx = (loop.target.elts[0].id, loop.target.elts[1].id)
+    points = _kd_points(fi, loop)
+    runs: Dict[str, Any] = {}
+    maps: Dict[str, Any] = {}
+    for L in c03v.LETTERS:
+        res = c03v.ResStub(repo, L, model=1, tag=1)
+        env = c03v.run_prefix(repo, fi, points, [res], None)
+        pts = list(env[points])
+        dicts = c03v.site_dicts(env, points)
+        runs[L] = {"res": res, "points": pts, "dicts": dicts}
+        for d, content in dicts.items():
+            kinds = {repr(c03v.component_kind(v, res)) for v in content.values()}
+            if len(kinds) != 1:
+                raise c03v.NotEvaluable(f"`{d}` stores values of different kinds")
+            k = c03v.component_kind(next(iter(content.values())), res)
+            if k is None:
+                continue
+            if d in maps and repr(maps[d]) != repr(k):
+                raise c03v.NotEvaluable(f"`{d}` stores values of different kinds for different bases")
+            maps[d] = k
+    if not maps:
+        raise c03v.NotEvaluable("no dictionary keyed by the registered points after the registration")
+    cand = [st for st in fi.node.body if isinstance(st, ast.For) and st is not loop and st.lineno < loop.lineno]
+    rl = cand[0] if cand else loop
+    s = Sites(fi, loop, idx, points, rl, rl.target.id if isinstance(rl.target, ast.Name) else "residue", [], nonnull=SX.nonnull_locals(fi.node))
+    s.maps = maps
+    for k in maps.values():
+        if isinstance(k, tuple) and k[0] == "record":
+            s.records[k[1]] = k[2]
+    s.byvalue = {"runs": runs, "why": why}
+    return s
+
+
+def _build_sites_symbolic(fi: FuncInfo, loop: ast.For) -> Sites:
     if not (isinstance(loop.target, ast.Tuple) and len(loop.target.elts) == 2 and all(isinstance(e, ast.Name) for e in loop.target.elts)):
         raise NotReadable("the pair loop does not unpack (i, j)")
     idx = (loop.target.elts[0].id, loop.target.elts[1].id)
@@ -196,10 +263,10 @@ def build_sites(fi: FuncInfo, loop: ast.For) -> Sites:
                 break
 
     def kind(v: ast.expr) -> Any:
-        if s.atom is not None and norm(v) == norm(s.atom):
-            return "atom"
         if isinstance(v, ast.Name) and v.id == s.res_var:
             return "residue"
+        if s.atom is not None and norm(v) == norm(s.atom):
+            return "atom"
         if isinstance(v, ast.Constant) and isinstance(v.value, str):
             return "type"
         if isinstance(v, ast.Tuple):
@@ -312,26 +379,200 @@ def pairs_model(chk, fi: FuncInfo, loop: ast.For) -> PairsModel:
     return m
 
 
+_norm_cache: Dict[int, FuncInfo] = {}
+
+
+def normalised(fi: FuncInfo) -> FuncInfo:
+    """A copy of the function for the rules that look at what is built after the loops: the function's own nested single-purpose
+    helpers are inlined, a comprehension / generator over a literal tuple of alternatives is written out member by member, and
+    `a, b = (X, Y)` becomes two assignments - `base_phosphates, base_riboses = ([...] for contacts, cls, enum in ((p, P, E), (r, R, F)))`
+    reads like the two list comprehensions it stands for."""
+    if id(fi.node) in _norm_cache:
+        return _norm_cache[id(fi.node)]
+    from sa.inline import inline_in_function
+
+    node = copy.deepcopy(fi.node)
+    helpers = {n.name: n for n in node.body if isinstance(n, ast.FunctionDef) and not n.decorator_list}
+    if helpers:
+        try:
+            inline_in_function(node, helpers, None, [])
+        except Exception:
+            node = copy.deepcopy(fi.node)
+
+    def expand(comp: ast.AST) -> Optional[List[ast.expr]]:
+        if not isinstance(comp, (ast.GeneratorExp, ast.ListComp)) or len(comp.generators) != 1:
+            return None
+        g = comp.generators[0]
+        if g.ifs or g.is_async or not isinstance(g.iter, (ast.Tuple, ast.List)) or len(g.iter.elts) > 6:
+            return None
+        out = []
+        for x in g.iter.elts:
+            env: Dict[str, ast.expr] = {}
+            if isinstance(g.target, ast.Name):
+                env[g.target.id] = x
+            elif isinstance(g.target, ast.Tuple) and isinstance(x, ast.Tuple) and len(x.elts) == len(g.target.elts) and all(isinstance(t, ast.Name) for t in g.target.elts):
+                env.update({t.id: v for t, v in zip(g.target.elts, x.elts)})
+            else:
+                return None
+            out.append(SX.subst(comp.elt, env))
+        return out
+
+    def walk(block: List[ast.stmt]) -> List[ast.stmt]:
+        res: List[ast.stmt] = []
+        for st in block:
+            for f in ("body", "orelse", "finalbody"):
+                b = getattr(st, f, None)
+                if isinstance(b, list) and b and isinstance(b[0], ast.stmt) and not isinstance(st, (ast.FunctionDef, ast.ClassDef)):
+                    setattr(st, f, walk(b))
+            if isinstance(st, ast.Assign) and len(st.targets) == 1 and isinstance(st.targets[0], ast.Tuple):
+                vals = expand(st.value) if isinstance(st.value, (ast.GeneratorExp, ast.ListComp)) else (list(st.value.elts) if isinstance(st.value, ast.Tuple) else None)
+                tg = st.targets[0].elts
+                if vals is not None and len(vals) == len(tg) and all(isinstance(t, ast.Name) for t in tg):
+                    used = {n.id for v in vals for n in ast.walk(v) if isinstance(n, ast.Name)}
+                    if not (used & {t.id for t in tg}):  # no swap-like dependence between the two sides
+                        for t, v in zip(tg, vals):
+                            res.append(ast.fix_missing_locations(ast.copy_location(ast.Assign(targets=[t], value=v), st)))
+                        continue
+            res.append(st)
+        return res
+
+    node.body = walk(node.body)
+    out = FuncInfo(fi.module, fi.qualname, node, fi.cls)
+    _norm_cache[id(fi.node)] = out
+    return out
+
+
+def loopified(fi: FuncInfo) -> FuncInfo:
+    """A copy of the function in which a pair "loop" written as comprehensions
+         G = (E for i, j in tree.query_pairs(r))            P = [E for i, j in tree.query_pairs(r) if C]
+         P = [v for v in G if v is not None]
+    is the loop it stands for:  P = []; for i, j in tree.query_pairs(r): v = E; if not (v is not None): continue; P.append(v)."""
+    def is_pairs(e: ast.AST) -> bool:
+        return any(isinstance(c, ast.Call) and astq.callee_name(c) == "query_pairs" for c in ast.walk(e))
+
+    node = copy.deepcopy(fi.node)
+    body = list(node.body)
+    gens: Dict[str, Tuple[int, ast.AST]] = {}
+    for k, st in enumerate(body):
+        if isinstance(st, (ast.Assign, ast.AnnAssign)) and st.value is not None and isinstance(st.value, (ast.GeneratorExp, ast.ListComp)) and len(st.value.generators) == 1 and is_pairs(st.value.generators[0].iter):
+            t = st.targets[0] if isinstance(st, ast.Assign) else st.target
+            if isinstance(t, ast.Name):
+                gens[t.id] = (k, st.value)
+    if not gens:
+        return fi
+    out: List[ast.stmt] = []
+    changed = False
+    drop = set()
+    for k, st in enumerate(body):
+        if k in drop:
+            continue
+        t = (st.targets[0] if isinstance(st, ast.Assign) else st.target) if isinstance(st, (ast.Assign, ast.AnnAssign)) and st.value is not None else None
+        v = st.value if t is not None else None
+        src = None
+        elt = conds = var = None
+        if isinstance(t, ast.Name) and isinstance(v, (ast.ListComp,)) and len(v.generators) == 1 and isinstance(v.generators[0].iter, ast.Name) and v.generators[0].iter.id in gens and isinstance(v.generators[0].target, ast.Name):
+            src = gens[v.generators[0].iter.id]
+            var, elt, conds = v.generators[0].target.id, v.elt, list(v.generators[0].ifs)
+        elif isinstance(t, ast.Name) and isinstance(v, ast.Call) and isinstance(v.func, ast.Name) and v.func.id == "list" and len(v.args) == 1 and isinstance(v.args[0], ast.Name) and v.args[0].id in gens:
+            src = gens[v.args[0].id]
+            var, elt, conds = "_member", ast.Name(id="_member", ctx=ast.Load()), []
+        if src is None:
+            if isinstance(t, ast.Name) and t.id in gens and isinstance(v, ast.ListComp):
+                # the comprehension itself is the collected list
+                g = v.generators[0]
+                loop_body: List[ast.stmt] = [ast.If(test=ast.UnaryOp(op=ast.Not(), operand=c), body=[ast.Continue()], orelse=[]) for c in g.ifs]
+                loop_body.append(ast.Expr(value=ast.Call(func=ast.Attribute(value=ast.Name(id=t.id, ctx=ast.Load()), attr="append", ctx=ast.Load()), args=[v.elt], keywords=[])))
+                new = [ast.Assign(targets=[ast.Name(id=t.id, ctx=ast.Store())], value=ast.List(elts=[], ctx=ast.Load())), ast.For(target=g.target, iter=g.iter, body=loop_body, orelse=[])]
+                for n in new:
+                    ast.copy_location(n, st)
+                    ast.fix_missing_locations(n)
+                # only when nothing else consumes it as a generator first
+                consumers = [x for x in ast.walk(ast.Module(body=body[k + 1 :], type_ignores=[])) if isinstance(x, ast.Name) and x.id == t.id]
+                if consumers and not any(isinstance(b2, (ast.Assign, ast.AnnAssign)) and b2.value is not None and isinstance(b2.value, ast.ListComp) and isinstance(b2.value.generators[0].iter, ast.Name) and b2.value.generators[0].iter.id == t.id for b2 in body[k + 1 :]):
+                    out.extend(new)
+                    changed = True
+                    continue
+            out.append(st)
+            continue
+        gk, g = src
+        gg = g.generators[0]
+        loop_body = [ast.If(test=ast.UnaryOp(op=ast.Not(), operand=c), body=[ast.Continue()], orelse=[]) for c in gg.ifs]
+        loop_body.append(ast.Assign(targets=[ast.Name(id=var, ctx=ast.Store())], value=g.elt))
+        loop_body += [ast.If(test=ast.UnaryOp(op=ast.Not(), operand=c), body=[ast.Continue()], orelse=[]) for c in conds]
+        loop_body.append(ast.Expr(value=ast.Call(func=ast.Attribute(value=ast.Name(id=t.id, ctx=ast.Load()), attr="append", ctx=ast.Load()), args=[elt], keywords=[])))
+        new = [ast.Assign(targets=[ast.Name(id=t.id, ctx=ast.Store())], value=ast.List(elts=[], ctx=ast.Load())), ast.For(target=gg.target, iter=gg.iter, body=loop_body, orelse=[])]
+        for n in new:
+            ast.copy_location(n, body[gk])
+            for x in ast.walk(n):
+                if not hasattr(x, "lineno"):
+                    ast.copy_location(x, body[gk])
+            ast.fix_missing_locations(n)
+        out.extend(new)
+        # the generator's own assignment goes away
+        out = [o for o in out if o is not body[gk]]
+        changed = True
+    if not changed:
+        return fi
+    node.body = out
+    return FuncInfo(fi.module, fi.qualname, node, fi.cls)
+
+
+def constant_tuples(fi: FuncInfo, before: ast.AST) -> Dict[str, ast.expr]:
+    """Locals bound once, at the top level of the function before `before`, to a tuple display (immutable): a dispatch table
+    written ahead of the loop that walks over it reads like the literal it is."""
+    out: Dict[str, ast.expr] = {}
+    for st in fi.node.body:
+        if st is before:
+            break
+        if isinstance(st, (ast.Assign, ast.AnnAssign)) and st.value is not None and isinstance(st.value, ast.Tuple):
+            t = st.targets[0] if isinstance(st, ast.Assign) else st.target
+            if isinstance(t, ast.Name) and len(astq.assignments(fi.node, t.id)) == 1:
+                out[t.id] = copy.deepcopy(st.value)
+    return out
+
+
+def new_helpers(repo, fi: FuncInfo) -> Dict[str, ast.FunctionDef]:
+    """Module-level functions that the reference copy of the module does not have and that were not inlined into their callers
+    (a `return` inside a loop ...): their calls are executed symbolically with the caller's values."""
+    ref = getattr(repo, "reference", {}).get(fi.module.name)
+    out = {}
+    for q, f in fi.module.funcs.items():
+        if "." in q or f.node is fi.node or f.decorators:
+            continue
+        if ref is not None and q in ref.funcs:
+            continue
+        out[q] = f.node
+    return out
+
+
 def _pairs_model(chk, fi: FuncInfo, loop: ast.For) -> PairsModel:
-    sites = build_sites(fi, loop)
+    sites = build_sites(fi, loop, chk.repo)
     for need in ("atom", "type", "residue"):
-        have = [k for v in sites.maps.values() for k in (v if isinstance(v, list) else [v])]
+        have = [k for v in sites.maps.values() for k in (v[3] if isinstance(v, tuple) and v[0] == "record" else (v if isinstance(v, list) else [v]))]
         if need not in have:
             raise NotReadable(f"no dictionary keyed by the point stores the {need} of a site")
-    ex = SX.Executor(nonnull=sites.nonnull, rewrite=sites.rewrite)
-    paths = ex.run(loop.body)
-    appended = sorted({e.recv for p in paths for e in p.effects if e.method == "append" and e.kind == "call" and e.recv in sites.nonnull})
+    ex = SX.Executor(nonnull=sites.nonnull, rewrite=sites.rewrite, helpers=new_helpers(chk.repo, fi))
+    paths = ex.run(loop.body, constant_tuples(fi, loop))
+    # lists the pair loop appends to: a local list, or a member of a local dict of lists (`contacts[kind].append(...)`)
+    appended = sorted({e.recv for p in paths for e in p.effects if e.method == "append" and e.kind == "call" and e.recv.split("[")[0] in sites.nonnull and "." not in e.recv})
     # classification of the three stores by what consumes them
     bph = br = hb = None
     label_loop = select_loop = None
     labels = None
     body = fi.node.body
-    after = body[body.index(loop) + 1 :] if loop in body else []
+    k_loop = body.index(loop) if loop in body else len(body)
+    after = normalised(fi).node.body[k_loop + 1 :]  # same top-level positions up to the loop: the copy only rewrites statements, it splits some after it
     for st in ast.walk(ast.Module(body=list(after), type_ignores=[])):
         if isinstance(st, ast.Call) and astq.callee_name(st) == "merge_and_clean_bph_br" and st.args:
-            names = [n.id for n in ast.walk(st.args[0]) if isinstance(n, ast.Name) and n.id in appended]
-            if len(names) != 1:
+            # the list handed over: merge_and_clean_bph_br(sorted(X)) / (X) - by the consumer, whether or not the loop ever appends to it
+            arg = st.args[0]
+            if isinstance(arg, ast.Call) and isinstance(arg.func, ast.Name) and arg.func.id in ("sorted", "list", "reversed", "set") and len(arg.args) == 1:
+                arg = arg.args[0]
+            if not (isinstance(arg, ast.Name) or (isinstance(arg, ast.Subscript) and isinstance(arg.value, ast.Name))):
                 continue
+            if (arg.id if isinstance(arg, ast.Name) else arg.value.id) not in sites.nonnull:
+                continue
+            names = [norm(arg)]
             # which constructor consumes the result
             tgt = None
             for a in after:
@@ -344,7 +585,7 @@ def _pairs_model(chk, fi: FuncInfo, loop: ast.For) -> PairsModel:
                 if isinstance(a, (ast.For, ast.Assign, ast.AnnAssign, ast.Return, ast.Expr)):
                     uses = any(isinstance(n, ast.Name) and n.id == tgt for n in ast.walk(a)) if tgt else any(x is st for x in ast.walk(a))
                     if uses:
-                        cons |= {astq.callee_name(c) for c in ast.walk(a) if isinstance(c, ast.Call)} & {"BasePhosphate", "BaseRibose"}
+                        cons |= ({astq.callee_name(c) for c in ast.walk(a) if isinstance(c, ast.Call)} | {n.id for n in ast.walk(a) if isinstance(n, ast.Name)}) & {"BasePhosphate", "BaseRibose"}
             if cons == {"BasePhosphate"}:
                 bph = names[0]
             elif cons == {"BaseRibose"}:
@@ -435,7 +676,7 @@ def check_contacts(chk, fi: FuncInfo, loop: ast.For, m: PairsModel, eq_fields) -
     repo = chk.repo
     s = m.sites
     stores = [x for x in (m.hb, m.bph, m.br) if x]
-    if len(stores) != 3 or sorted(stores) != m.appended:
+    if len(stores) != 3 or not set(m.appended) <= set(stores) or m.hb not in m.appended:
         raise NotReadable(f"the pair loop appends to {m.appended}; hydrogen-bond / base-phosphate / base-ribose stores identified as {m.hb}, {m.bph}, {m.br}")
     # ---- roles: every use of a site dictionary is a look-up by query index ---------------------------------------------
     residual = set()
@@ -516,7 +757,15 @@ def check_contacts(chk, fi: FuncInfo, loop: ast.For, m: PairsModel, eq_fields) -
         )
     # ---- closed world: why does a path record nothing? ----------------------------------------------------------------
     def is_angle(k: str) -> bool:
-        return "angle_between_vectors(" in k
+        if "angle_between_vectors(" in k:
+            return True
+        if "numpy.dot(" in k or "np.dot(" in k:
+            try:
+                n = ast.parse(k, mode="eval").body
+            except SyntaxError:
+                return False
+            return any(angle_quantity(x, ("residue_i.base_normal_vector", "residue_j.base_normal_vector")) is not None for x in ast.walk(n))
+        return False
 
     rec_angle = [frozenset((k, v) for k, v, _ in p.conds if is_angle(k)) for p, e in recs if e.recv == m.hb]
     reasons_any = SAME_TYPE | SAME_LABEL | SAME_AUTH | NO_NORMAL | {t[0] for t in other_ids}
@@ -553,6 +802,9 @@ def check_registration(chk, fi: FuncInfo, m: PairsModel, spec, distinct: bool = 
     repo = chk.repo
     s = m.sites
     rl = s.res_loop
+    if s.byvalue is not None:
+        registration_by_value(chk, fi, s, spec, distinct)
+        return
     check_model_filter(chk, fi, rl, s.res_var, s.res_paths)
     tables = spec("lw_edges.json")
     letters = list(tables["BASE_ATOMS"]) + ["N"]
@@ -634,6 +886,88 @@ def check_registration(chk, fi: FuncInfo, m: PairsModel, spec, distinct: bool = 
     if fa is not None:
         unguarded = [e for p, e in regs if not any((k in (fa, f"{fa} is None")) and (v == (k == fa)) for k, v, _ in list(p.conds) + list(e.guards))]
         chk.expect(not unguarded, "contact-atoms", fi.site(rl), "a point is registered only when the atom was found", "a point is registered without testing that the atom was found", K(fi, "atom-found"))
+
+
+def registration_by_value(chk, fi: FuncInfo, s: Sites, spec, distinct: bool) -> None:
+    """The same facts as above, decided on the values the registration code produces for stand-in residues (one per base
+    letter; an atom missing; another model requested)."""
+    repo = chk.repo
+    tables = spec("lw_edges.json")
+    site = fi.site(s.res_loop)
+    runs = s.byvalue["runs"]
+    chk.ok("reading", fi.where, f"registration read by value on stand-in residues ({', '.join(runs)}): {s.byvalue['why'][:100]}")
+    diffs, dup, wrong = {}, {}, {}
+    n_typed = 0
+    for L, r in runs.items():
+        res = r["res"]
+        by_xyz = {(a.x, a.y, a.z): a for a in res.atoms}
+        names = []
+        for pt in r["points"]:
+            a = by_xyz.get(tuple(pt)) if isinstance(pt, (tuple, list)) else None
+            names.append(a.name if a is not None else f"<{pt!r}>"[:40])
+        want = tables["BASE_ACCEPTORS"].get(L, []) + tables["RIBOSE_ACCEPTORS"] + tables["PHOSPHATE_ACCEPTORS"] + tables["BASE_DONORS"].get(L, [])
+        if set(names) != set(want):
+            diffs[L] = {"missing": sorted(set(want) - set(names)), "extra": sorted(set(names) - set(want))}
+        d = sorted({x for x in names if names.count(x) > 1})
+        if d:
+            dup[L] = d
+        acc = set(tables["BASE_ACCEPTORS"].get(L, []) + tables["RIBOSE_ACCEPTORS"] + tables["PHOSPHATE_ACCEPTORS"])
+        for dname, content in r["dicts"].items():
+            k = s.maps.get(dname)
+            pos = None
+            if k == "type":
+                pos = ()
+            elif isinstance(k, list) and "type" in k:
+                pos = (k.index("type"),)
+            elif isinstance(k, tuple) and k[0] == "record" and "type" in k[3]:
+                pos = (k[3].index("type"),)
+            if pos is None:
+                continue
+            for pt, v in content.items():
+                a = by_xyz.get(tuple(pt))
+                if a is None:
+                    continue
+                t = v if pos == () else v[pos[0]]
+                n_typed += 1
+                if t != ("acceptor" if a.name in acc else "donor"):
+                    wrong[f"{L}:{a.name}"] = t
+        # every dictionary describes the atom registered under its key
+        for dname, content in r["dicts"].items():
+            k = s.maps.get(dname)
+            for pt, v in content.items():
+                comps = [v] if not isinstance(v, tuple) else list(v)
+                for c in comps:
+                    if isinstance(c, c03v.AtomStub) and (c.x, c.y, c.z) != tuple(pt):
+                        wrong[f"{L}:{dname}"] = f"the atom stored under a point is {c.name}, not the atom at that point"
+    chk.expect(not diffs, "contact-atoms", site, f"candidate atoms = base acceptors + ribose + phosphate acceptors + base donors of the residue's own base (registered points of stand-in residues {', '.join(runs)})", f"the atoms put into the KD-tree are not acceptors(base)+ribose+phosphate+donors(base) of the residue's one-letter name: {diffs}", K(fi, "atoms"), found=diffs)
+    if distinct:
+        chk.expect(not dup, "contact-distinct-points", site, "every candidate atom is one KD-tree point: each contact is counted once", f"{sorted({x for v in dup.values() for x in v})} are put into the KD-tree twice for bases {sorted(dup)}: query_pairs returns each of their contacts twice, and one donor-acceptor contact alone reaches the `at least two contacts` threshold", K(fi, "duplicate-points:" + ",".join(sorted({x for v in dup.values() for x in v}))), found=dup)
+    chk.expect(not wrong and n_typed > 0, "contact-typing", site, f"an atom is typed acceptor iff its name is in the acceptor lists of its residue, donor otherwise ({n_typed} stored types inspected)", f"atom typing differs from `acceptor iff the name is an acceptor of the base / ribose / phosphate`: {dict(list(wrong.items())[:6])}" if wrong else "no stored donor/acceptor type found", K(fi, "typing"), found=wrong)
+    # an atom that is missing from the file is skipped, nothing else changes
+    try:
+        L = "G"
+        full = runs[L]
+        gone = tables["BASE_DONORS"][L][0]
+        res2 = c03v.ResStub(repo, L, model=1, tag=1, missing=[gone])
+        env2 = c03v.run_prefix(repo, fi, s.points, [res2], None)
+        n2 = len(env2[s.points])
+        chk.expect(n2 == len(full["points"]) - 1, "contact-atoms", site, "a point is registered only when the atom was found (a residue without one candidate atom registers one point less)", f"with atom {gone} missing the registration yields {n2} points instead of {len(full['points']) - 1}", K(fi, "atom-found"))
+    except c03v.NotEvaluable as ex:
+        chk.violation("contact-atoms", site, f"a residue that lacks a candidate atom makes the registration fail ({str(ex)[:100]}): a point is registered without testing that the atom was found", K(fi, "atom-found"))
+    model_filter_by_value(chk, fi, s)
+
+
+def model_filter_by_value(chk, fi: FuncInfo, s: Sites) -> None:
+    repo = chk.repo
+    site = fi.site(s.res_loop)
+    try:
+        verdicts = {}
+        for tag, (req, own) in {"none": (None, 2), "same": (2, 2), "other": (1, 2)}.items():
+            env3 = c03v.run_prefix(repo, fi, s.points, [c03v.ResStub(repo, "A", model=own, tag=1)], req)
+            verdicts[tag] = len(env3[s.points]) > 0
+        chk.expect(verdicts == {"none": True, "same": True, "other": False}, "model-filter", site, "residues of other models are skipped before anything is registered (model None / same / other evaluated)", f"the registration does not keep exactly the residues of the requested model: registered? {verdicts} for (no model requested, same model, another model)", K(fi, "model-filter"), found=verdicts)
+    except c03v.NotEvaluable as ex:
+        chk.error("model-filter", site, f"model filter not evaluable: {str(ex)[:120]}")
 
 
 # ---------------------------------------------------------------------------------------------------------------------
@@ -900,7 +1234,8 @@ def check_selection(chk, fi: FuncInfo, m: PairsModel, fold, c: Dict[str, Any]) -
     sl = m.select_loop
     if sl is None or m.labels is None:
         raise NotReadable("selection loop over Counter(...).most_common() not found")
-    inl = Inliner(fi.node)
+    nfi = normalised(fi)  # the loops of the model are statements of this copy
+    inl = Inliner(nfi.node)
     src = inl.inline(sl.iter, sl)
     chk.expect(norm(src) == f"Counter({m.labels}).most_common()", "select-source", fi.site(sl), "candidates = Counter(labels).most_common(): every label with its contact count, best supported first", f"selection iterates `{norm(src)}`, not all labels with their counts", K(fi, "select-source"), found=norm(src))
     if not (isinstance(sl.target, ast.Tuple) and len(sl.target.elts) == 2 and isinstance(sl.target.elts[1], ast.Name)):
@@ -1070,7 +1405,7 @@ def check_selection(chk, fi: FuncInfo, m: PairsModel, fold, c: Dict[str, Any]) -
     if "select-min-contacts" not in hit:
         want = {n: n >= need for n in range(0, 6)}
         chk.expect(reported_for == want, "select-min-contacts", fi.site(sl), f"with free edges a label is reported iff it has at least {need} contacts (counts 0..5 evaluated)", f"the count threshold does not report exactly the labels with at least {need} contacts", K(fi, "min-contacts"), expected=want, found=reported_for)
-    binds = astq.assignments(fi.node, occ_name)
+    binds = astq.assignments(nfi.node, occ_name)
     init = [v for s, v in binds if v is not None]
     inside = [s for s, v in binds if any(s is n for n in ast.walk(sl))]
     if inside:
@@ -1113,56 +1448,109 @@ def _disj(parts: List[ast.expr]) -> ast.expr:
     return parts[0] if len(parts) == 1 else ast.BoolOp(op=ast.Or(), values=parts)
 
 
+def unit_of(e: ast.expr) -> Optional[ast.expr]:
+    """V when e is V / numpy.linalg.norm(V) (the unit vector along V)"""
+    if isinstance(e, ast.BinOp) and isinstance(e.op, ast.Div) and isinstance(e.right, ast.Call) and norm(e.right.func) in ("numpy.linalg.norm", "np.linalg.norm") and len(e.right.args) == 1 and norm(e.right.args[0]) == norm(e.left):
+        return e.left
+    return None
+
+
+def angle_quantity(x: ast.AST, units: Sequence[str]) -> Optional[Tuple[str, str, str]]:
+    """(unit, first operand, second operand) when x measures the angle between two directions:
+         angle_between_vectors(a, b)                      the angle in radians            ('rad')
+         numpy.dot(a, b) with a, b unit vectors           its cosine                      ('cos')
+    `units` lists the operand texts known to be unit vectors (base normals); V / |V| is one by construction and is shown as V."""
+    if not isinstance(x, ast.Call) or len(x.args) != 2 or x.keywords:
+        return None
+    if astq.callee_name(x) == "angle_between_vectors":
+        return "rad", norm(x.args[0]), norm(x.args[1])
+    if norm(x.func) in ("numpy.dot", "np.dot"):
+        ops = []
+        for a in x.args:
+            u = unit_of(a)
+            if u is not None:
+                ops.append(norm(u))
+            elif norm(a) in units or (isinstance(a, ast.UnaryOp) and isinstance(a.op, ast.USub) and norm(a.operand) in units):
+                ops.append(norm(a))
+            else:
+                return None
+        return "cos", ops[0], ops[1]
+    return None
+
+
 def check_angles(chk, fi: FuncInfo, m: PairsModel, fold, c: Dict[str, Any]) -> None:
     from sa import intervals
 
+    NORMALS = ("residue_i.base_normal_vector", "residue_j.base_normal_vector")
+    VECS = ("atom_i.coordinates - atom_j.coordinates", "atom_j.coordinates - atom_i.coordinates")
+
+    def quantities(n: ast.AST) -> List[Tuple[ast.Call, Tuple[str, str, str]]]:
+        out = []
+        for x in ast.walk(n):
+            q = angle_quantity(x, NORMALS)
+            if q is not None and ({q[1], q[2]} & set(NORMALS)) and not ({q[1], q[2]} <= set(NORMALS)):
+                out.append((x, q))
+        return out
+
     def is_angle(n: ast.AST) -> bool:
-        return any(isinstance(x, ast.Call) and astq.callee_name(x) == "angle_between_vectors" for x in ast.walk(n))
+        return bool(quantities(n))
 
     rec = [(p, e) for p in m.paths for e in p.effects if e.recv == m.hb and e.method == "append"]
     if not rec:
         raise NotReadable("no path records a hydrogen bond")
     site = rec[0][1].node
     alts = []
-    calls: Dict[str, ast.Call] = {}
+    calls: Dict[str, Tuple[ast.Call, Tuple[str, str, str]]] = {}
     for p, e in rec:
         cs = [(k, v, n) for k, v, n in p.conds if is_angle(n)]
         alts.append(_conj(cs))
         for k, v, n in cs:
-            for x in ast.walk(n):
-                if isinstance(x, ast.Call) and astq.callee_name(x) == "angle_between_vectors":
-                    calls[norm(x)] = x
+            for x, q in quantities(n):
+                calls[norm(x)] = (x, q)
     if not calls:
         chk.violation("angle-window", fi.site(site), "a hydrogen bond is recorded without any test of the angles between the contact vector and the base normals", K(fi, "angle-window"))
         return
     test = ast.fix_missing_locations(_disj(list({norm(a): a for a in alts}.values())))
     sig = sorted(calls)
-    vec_ok = [len(x.args) == 2 and norm(x.args[1]) in ("atom_i.coordinates - atom_j.coordinates", "atom_j.coordinates - atom_i.coordinates") for x in calls.values()]
-    normals = sorted({norm(x.args[0]) for x in calls.values() if len(x.args) == 2})
+    by_normal: Dict[str, List[Tuple[ast.Call, str]]] = {}
+    vec_ok = True
+    for x, (unit, a, b) in calls.values():
+        nrm = a if a in NORMALS else b
+        other = b if a in NORMALS else a
+        vec_ok = vec_ok and other in VECS
+        by_normal.setdefault(nrm, []).append((x, unit))
+    normals = sorted(by_normal)
     chk.expect(
-        normals == ["residue_i.base_normal_vector", "residue_j.base_normal_vector"] and all(vec_ok),
+        normals == sorted(NORMALS) and vec_ok,
         "angle-operands",
         fi.site(site),
-        "the two angles are taken between the contact vector and the normals of the two different residues",
+        "the two angles are taken between the contact vector and the normals of the two different residues" + (" (as cosines: dot products with the unit contact vector)" if any(u == "cos" for x, (u, a, b) in calls.values()) else ""),
         "the angle test does not use the normals of both residues against the contact vector atom_i - atom_j",
         K(fi, "angle-operands"),
         found=sig,
     )
     if len(normals) == 2:
-        qs = [((lambda n, t=t: isinstance(n, ast.Call) and astq.callee_name(n) == "angle_between_vectors" and len(n.args) == 2 and norm(n.args[0]) == t), "rad") for t in normals]
+        qs = []
+        for t in normals:
+            texts = {norm(x): unit for x, unit in by_normal[t]}
+            units = set(texts.values())
+            if len(units) != 1:
+                chk.error("angle-window", fi.site(site), f"the angle to {t} is measured both as an angle and as a cosine")
+                return
+            qs.append(((lambda n, texts=texts: isinstance(n, ast.Call) and norm(n) in texts), units.pop()))
         lo, hi = c["hbond_angle_window_deg"]
         try:
-            reg = intervals.region(test, qs, fold, extra_thresholds=(lo, hi))
-            bad = {k: v for k, v in reg.items() if v != (lo < k[0] < hi and lo < k[1] < hi)}
+            reg = intervals.region(test, qs, fold, extra_thresholds=(lo, hi, 0.0, 180.0))
+            bad = {k: v for k, v in reg.items() if 0 <= k[0] <= 180 and 0 <= k[1] <= 180 and v != (lo < k[0] < hi and lo < k[1] < hi)}
             chk.expect(
                 not bad,
                 "angle-window",
                 fi.site(site),
                 f"a contact counts iff both angles lie in ({lo}, {hi}) degrees ({len(reg)} cells compared, accept condition read from {len(rec)} recording path(s))",
-                f"accept region of the angle test differs from ({lo}, {hi}) degrees on both normals",
+                (f"accept region of the angle test differs from ({lo}, {hi}) degrees on both normals: e.g. angles {sorted(bad)[0]} degrees are {'accepted' if bad[sorted(bad)[0]] else 'rejected'} (accept condition `{norm(test)[:120]}`)" if bad else ""),
                 K(fi, "angle-window"),
                 expected=f"{lo} < angle_i < {hi} and {lo} < angle_j < {hi} (degrees)",
-                found={str(k): v for k, v in list(bad.items())[:6]},
+                found={str(k): v for k, v in list(sorted(bad.items()))[:6]},
             )
         except intervals.NotThreshold as ex:
             chk.error("angle-window", fi.site(site), str(ex))
@@ -1323,7 +1711,34 @@ TRIPLE = {True: ("N9", "N7", "N3"), False: ("N1", "C4", "O2")}
 
 def check_base_normal(chk, fi: FuncInfo) -> None:
     repo = chk.repo
-    paths = SX.Executor(rewrite=idioms).run(fi.node.body)
+
+    class _ClassConst(ast.NodeTransformer):
+        """Residue3D.<table> / self.<table> with a class-level tuple or list of names -> the literal"""
+
+        def visit_Attribute(self, n: ast.Attribute):
+            self.generic_visit(n)
+            if isinstance(n.value, ast.Name) and n.value.id in ("Residue3D", "self", "cls") and isinstance(n.ctx, ast.Load):
+                try:
+                    e = repo.class_attr_expr(fi.module.name, "Residue3D", n.attr)
+                except Exception:
+                    return n
+                if isinstance(e, (ast.Tuple, ast.List)) and all(isinstance(x, ast.Constant) for x in e.elts):
+                    return copy.deepcopy(e)
+            return n
+
+    def rw(e: ast.expr) -> ast.expr:
+        return SX._simplify(_ClassConst().visit(idioms(e)))
+
+    paths = SX.Executor(rewrite=rw).run(fi.node.body)
+    def unread(node: ast.AST) -> bool:
+        return any(SX.is_elem(x) is not None or SX.is_opaque(x) or isinstance(x, (ast.ListComp, ast.GeneratorExp)) for x in ast.walk(node))
+
+    for p in paths:
+        # decisions about the three reference atoms must be readable; the value matters only where all three were found
+        # (where one is missing any value other than None is already the finding)
+        for k, v, node in p.conds:
+            if "find_atom" in k and unread(node):
+                raise NotReadable(f"base_normal_vector: `{k[:70]}` is not resolved to atoms fetched by constant names")
     n_eval = 0
     problems: Dict[str, str] = {}
     for p in paths:
@@ -1346,6 +1761,8 @@ def check_base_normal(chk, fi: FuncInfo) -> None:
                 why = [(k, v) for k, v, _ in p.conds if "one_letter_name" not in k][-1:] or "unconditionally"
                 problems.setdefault(f"{L}: no normal", f"returns None although {o}, {t1}, {t2} were not found missing (decision: {why})")
                 continue
+            if unread(ret):
+                raise NotReadable(f"base_normal_vector: `{norm(ret)[:70]}` is not resolved to atoms fetched by constant names")
             cross = f"numpy.cross(self.find_atom('{t1}').coordinates - self.find_atom('{o}').coordinates, self.find_atom('{t2}').coordinates - self.find_atom('{o}').coordinates)"
             want = f"{cross} / numpy.linalg.norm({cross})"
             if norm(ret) != want:
